@@ -476,6 +476,14 @@ def iodata_case(run, rng, lmax=3):
     line = ("evalderiv general " + btok(specs) + f" {len(pts)} " + " ".join(core.enc(x) for x in pts.ravel()) + " 0 0 0")
     v, g = run.model.array_mag(line)
     ok &= compare(run, "evaluate_basis(from_iodata(mol))", evaluate_basis(basis, pts), v, 1e-9 * g + 1e-300, rep, "iodata-convention")
+    # another molecule with other conventions is loaded in between: the first basis must keep its own
+    mol2, specs2 = iodata_molecule(rng, lmax)
+    basis2 = from_iodata(mol2)
+    ok &= compare(run, "overlap_integral(from_iodata(mol)) after another molecule was loaded", overlap_integral(basis), model,
+                  1e-9 * max(1.0, float(np.abs(model).max())), dict(rep, second_load=True), "iodata-convention")
+    model2 = run.model.array("overlap " + btok(specs2))
+    ok &= compare(run, "overlap_integral(from_iodata(mol2))", overlap_integral(basis2), model2,
+                  1e-9 * max(1.0, float(np.abs(model2).max())), dict(rep, basis=core.describe_basis(specs2)), "iodata-convention")
     env = pf.default_env(rng, specs)
     ref = make_basis(specs)
     for fname in ("kinetic", "momentum", "moment", "point_charge", "evaluate_deriv_basis(1,0,2)"):
